@@ -73,6 +73,9 @@ def run(R):
                       "named graph of the query dataset (all of them, no truncation) with ?g bound to that graph; an iteration is skipped only "
                       "because the graph does not exist or is not a named graph; for a bound ?g the pattern runs iff that graph is visible "
                       "and exists")
+    R.rule("C01-R14", "ORDER BY comparators (top level and subquery) agree and are lexicographic over ALL keys: each walks every sort key in "
+                      "order, compares numerically when both values parse as numbers and lexically otherwise, reverses exactly under "
+                      "DESC, returns at the first key that is not Equal and Equal only after the last key")
     R.rule("C01-R7", "plan memo completeness (shared with C02-R1): two different sub-plans of one query never share a memo entry")
     r1(R)
     r2(R)
@@ -87,6 +90,7 @@ def run(R):
     r11(R)
     r12(R)
     r13(R)
+    r14(R)
 
 
 def r1(R):
@@ -1015,3 +1019,67 @@ def r13(R):
         ins = [c for c in b.calls() if c.bb in blocks and c.name() == "insert" and _is_row(b, c.args[0])]
         R.ob("C01-R13", "binds-g", "the row handed to the inner pattern binds ?g to the visited graph", len(ins) >= 1 and all(b.dominates(i.bb, r.bb) for i in ins for r in rec),
              where=b.where(rec[0].ln))
+
+
+def r14(R):
+    prog = R.prog
+    shapes = {}
+    for suf in ("execute_query::apply_order_by", "ExecutionEngine::apply_subquery_order"):
+        b = R.body("C01-R14", suf, crate="kolibrie")
+        if b is None:
+            continue
+        R.saw(b)
+        sorts = [c for c in b.calls() if c.name() in ("sort_by", "sort_unstable_by", "sort_by_key", "sort_unstable_by_key", "sort_by_cached_key")]
+        sorts = [c for c in sorts if c.name() in ("sort_by", "sort_unstable_by")]
+        R.ob("C01-R14", "sorts:" + b.name, "%s sorts with a comparator (found %s)" % (b.name, [c.name() for c in sorts]), len(sorts) == 1, where=b.where())
+        if not sorts:
+            continue
+        from c19 import closure_family_calls
+        key, inner = closure_family_calls(prog, b, sorts[0].args[1])
+        cl = prog.bodies.get(key) if key else None
+        if cl is None:
+            R.ob("C01-R14", "comparator:" + b.name, "%s has a comparator closure" % b.name, False, where=b.where())
+            continue
+        lo = P.loops_over(cl, ["conditions"])
+        # the closure captures `conditions`; find the loop whose driver is rooted in a capture
+        loops = []
+        for h, blocks in cl.loops():
+            drv = P.driver_of(cl, h, blocks)
+            if drv and drv[2] is not None:
+                names, roots = P.flat(drv[2])
+                loops.append((h, blocks, names, roots))
+        loops.sort(key=lambda x: -len(x[1]))
+        R.ob("C01-R14", "keys-loop:" + b.name, "the comparator of %s loops over the sort keys" % b.name, len(loops) >= 1, where=cl.where())
+        if not loops:
+            continue
+        h, blocks, names, roots = loops[0]
+        whole = not [n for n in names if n not in ("iter", "into_iter", "deref")]
+        R.ob("C01-R14", "all-keys:" + b.name, "every sort key is considered, in order (pipeline %s)" % names, whole, where=cl.where())
+        # reverse() is controlled by the Desc variant and only by it
+        revs = [c for c in cl.calls() if c.name() == "reverse"]
+        okrev = len(revs) == 1 and any(cd.get("kind") == "variant" and cd.get("variant") == "Desc" for cd in G.conditions(cl, revs[0].bb))
+        R.ob("C01-R14", "desc-reverses:" + b.name, "the comparison is reversed exactly under DESC", okrev, where=cl.where(revs[0].ln if revs else None))
+        # numeric-or-lexical: two parse calls and both partial_cmp and cmp
+        nm = [c.name() for c in cl.calls()]
+        shape = (nm.count("parse") >= 2, "partial_cmp" in nm, "cmp" in nm)
+        shapes[b.name] = shape
+        R.ob("C01-R14", "numeric-or-lexical:" + b.name, "values are compared numerically when both parse as numbers, lexically otherwise", all(shape), where=cl.where())
+        # every verdict: either `Equal` (only after the keys are exhausted) or the current key's comparison under `!= Equal`
+        okret, okeq, nret, neq = True, True, 0, 0
+        for bb, i, pl, rv, st in cl.assigns():
+            if pl["l"] != 0 or pl["p"]:
+                continue
+            is_equal = rv["rv"] == "aggregate" and rv.get("variant") == "Equal"
+            conds = G.conditions(cl, bb)
+            if is_equal:
+                neq += 1
+                # reached through the `None` edge of the keys iterator, not from inside an iteration
+                if not any(cd.get("kind") == "variant" and cd.get("variant") == "None" for cd in conds):
+                    okeq = False
+            else:
+                nret += 1
+                if not any(cd.get("kind") == "call" and cd["call"].name() in ("ne", "eq") for cd in conds):
+                    okret = False
+        R.ob("C01-R14", "first-difference:" + b.name, "the comparator returns a key's comparison only when it is not Equal", okret and nret >= 1, where=cl.where())
+        R.ob("C01-R14", "equal-after-all:" + b.name, "rows compare Equal only after every key was compared", okeq and neq >= 1, where=cl.where())
+    R.ob("C01-R14", "siblings", "both comparators have the same shape (%s)" % shapes, len(shapes) == 2 and len(set(shapes.values())) == 1)
